@@ -40,30 +40,45 @@ let do_sbuf lens =
 
 (* sv cmd=<w|w!|wq|wq!|x|x!|xa|xa!|q|q!> rng=<b,e|-> tgt=<own|other> text=<hex> dirty=<0|1> own=<absent|hex> ownm=<n>
       rec=<n> other=<absent|hex> otherm=<n> sched=<o|e|sK,...|->
-   -> q=<0|1> st=<ok|refused|failed> dirty=<0|1> own=<hex|absent> other=<hex|absent> used=<calls consumed> *)
+      [pre=<name@tgt@rng;...>]   earlier commands of the same session: name w | w! | pipe (= :w !cmd), rng b,e or -
+      [gtext=<hex> gdirty=<0|1> g=<absent|hex> gm=<n> grec=<n>]   a second buffer (bufs[1]) on path 2
+   -> q=<0|1> st=<ok|refused|failed> dirty=<0|1: some buffer is modified> own=<hex|absent> other=<hex|absent> g=<hex|absent>
+      used=<calls consumed> *)
 let do_sv kvs =
   let get k = try List.assoc k kvs with Not_found -> "-" in
+  let has_key k = List.mem_assoc k kvs in
   let cmd = get "cmd" in
   let has c = String.contains cmd c in
-  let file k m = if get k = "absent" then [] else [(bytes_of_hex (get k), z_of_int (int_of_string (get m)))] in
-  let fs = List.map (fun f -> (O, f)) (file "own" "ownm") @ List.map (fun f -> (S O, f)) (file "other" "otherm") in
+  let file k m = if get k = "absent" || not (has_key k) then [] else [(bytes_of_hex (get k), z_of_int (int_of_string (get m)))] in
+  let two = S (S O) in
+  let fs = List.map (fun f -> (O, f)) (file "own" "ownm") @ List.map (fun f -> (S O, f)) (file "other" "otherm")
+           @ List.map (fun f -> (two, f)) (file "g" "gm") in
   let bf = { b_lines = split_lines (bytes_of_hex (get "text")); b_path = O; b_mtime = z_of_int (int_of_string (get "rec"));
              b_dirty = (get "dirty" = "1") } in
+  let others = if has_key "gtext" then
+      [{ b_lines = split_lines (bytes_of_hex (get "gtext")); b_path = two; b_mtime = z_of_int (int_of_string (get "grec"));
+         b_dirty = (get "gdirty" = "1") }] else [] in
   let sch = List.map (fun w -> if w = "o" then OOk else if w = "e" then OErr
                         else OShort (nat_of_int (int_of_string (String.sub w 1 (String.length w - 1))))) (split_on ',' (get "sched")) in
   let now = z_of_int 200 in
-  let path = if get "tgt" = "other" then S O else O in
-  let rng = match split_on ',' (get "rng") with [b; e] -> Some (nat_of_int (int_of_string b), nat_of_int (int_of_string e)) | _ -> None in
-  let (q, st, bf', fs', r) =
+  let path_of t = if t = "other" then S O else O in
+  let rng_of r = match split_on ',' r with [b; e] -> Some (nat_of_int (int_of_string b), nat_of_int (int_of_string e)) | _ -> None in
+  (* the earlier commands of the session *)
+  let (bf, fs, sch) = List.fold_left (fun (bf, fs, sch) c ->
+      match String.split_on_char '@' c with
+      | [name; tgt; r] when name <> "pipe" ->
+        let (((_, bf'), fs'), r') = ec_write now false (String.contains name '!') (rng_of r) (path_of tgt) bf fs sch in (bf', fs', r')
+      | _ -> (bf, fs, sch)) (bf, fs, sch) (split_on ';' (get "pre")) in
+  let (q, st, bufs', fs', r) =
     if cmd = "w" || cmd = "w!" then
-      let (((st, bf'), fs'), r) = ec_write now false (has '!') rng path bf fs sch in (false, st, bf', fs', r)
+      let (((st, bf'), fs'), r) = ec_write now false (has '!') (rng_of (get "rng")) (path_of (get "tgt")) bf fs sch in (false, st, bf' :: others, fs', r)
     else
-      let ((((q, st), bufs'), fs'), r) = ec_quit now (cmd.[0] = 'w' || cmd.[0] = 'x') (cmd.[0] = 'x') (has 'a') (has '!') [bf] fs sch in
-      (q, st, (match bufs' with b :: _ -> b | [] -> bf), fs', r) in
+      let ((((q, st), bufs'), fs'), r) = ec_quit now (cmd.[0] = 'w' || cmd.[0] = 'x') (cmd.[0] = 'x') (has 'a') (has '!') (bf :: others) fs sch in
+      (q, st, bufs', fs', r) in
   let show p = match fs_content fs' p with Some c -> hex_of_bytes c | None -> "absent" in
-  pr "q=%d st=%s dirty=%d own=%s other=%s used=%d\n" (if q then 1 else 0)
+  pr "q=%d st=%s dirty=%d own=%s other=%s g=%s used=%d\n" (if q then 1 else 0)
     (match st with SOk -> "ok" | SRefused -> "refused" | SFailed -> "failed")
-    (if bf'.b_dirty then 1 else 0) (show O) (show (S O)) (List.length sch - List.length r)
+    (if List.exists (fun b -> b.b_dirty) bufs' then 1 else 0) (show O) (show (S O)) (show two) (List.length sch - List.length r)
 
 let () =
   iter_lines (fun l ->
